@@ -206,13 +206,25 @@ section FullModel
 open H2.Client
 
 /-- **Full.no_new_stream_after_goaway**: in any run, once the connection has processed a GOAWAY frame (`goAway`, or
-`stateClosed` which implies it), no later step writes a HEADERS frame, whatever the events are: no new stream is opened.
+`stateClosed` which implies it), no later step writes a frame of a header block (`writesHeaders`: HEADERS with or without END_HEADERS, CONTINUATION),
+whatever the events are: no new stream is opened.
 (Requests that arrive afterwards are turned away with `ErrNotAvailableStreams`: `no_stream_after_goaway`.) -/
 theorem Full.no_new_stream_after_goaway (c : Conn) (h : Init c) (pre post : List Event)
     (hg : (run c pre).1.goAway = true ∨ (run c pre).1.stateClosed = true) :
     AllSteps (fun _ _ c' o => c'.goAway = true ∧ writesHeaders o = false) (run c pre).1 post := by
   have hi := run_hinv (init_hinv h) pre
   exact no_headers_after_goaway _ hi (hg.elim id hi.closed) post
+
+/-- … in particular no frame that opens a stream (`.headers`, or `.hfrag`: a HEADERS frame without END_HEADERS) -/
+theorem Full.no_stream_opening_frame_after_goaway (c : Conn) (h : Init c) (pre post : List Event)
+    (hg : (run c pre).1.goAway = true ∨ (run c pre).1.stateClosed = true) :
+    AllSteps (fun _ _ c' o => c'.goAway = true ∧ opensStream o = false) (run c pre).1 post := by
+  have := Full.no_new_stream_after_goaway c h pre post hg
+  revert this
+  generalize (run c pre).1 = c0
+  induction post generalizing c0 with
+  | nil => intro _; trivial
+  | cons e es ih => intro hh; exact ⟨⟨hh.1.1, not_writes_not_opens hh.1.2⟩, ih _ hh.2⟩
 
 /-- **Full.goaway_frame_sets_flag**: in every reachable state, a GOAWAY frame handed to the read loop sets the flag,
 whatever its last-stream-id -/
